@@ -24,3 +24,11 @@ Theorem C01_kernel_text_computes_constructor : forall ss es fuel, length ss = le
   end.
 Proof. exact k__jitfix_iset_computes_mk_iset. Qed.
 Print Assumptions C01_kernel_text_computes_constructor.
+
+(* TOTAL correctness: the translated kernel text terminates (Jit/Total.v: variants for every while loop) and returns the
+   model's value.  Proof in Inv/Jitfix_iset_total.v. *)
+From Verif Require Import Inv.Jitfix_iset_total.
+Theorem C01_kernel_text_total : forall l,
+  exists fuel rs, run fuel k__jitfix_iset (fix_args l) = Return rs /\ fix_post (fix_iset l) rs.
+Proof. exact k__jitfix_iset_total. Qed.
+Print Assumptions C01_kernel_text_total.
